@@ -581,6 +581,12 @@ def run(chk, repo):
             helper_args = []
             if isinstance(v, ast.Call) and isinstance(v.func, ast.Name):
                 inner = [f for f in fn.body if isinstance(f, FuncTypes) and f.name == v.func.id]
+                if not inner:
+                    # the generator as a module-level helper that is handed the old iterator (and the count, under
+                    # the same name)
+                    mf_ = repo.find("lazy_stream", v.func.id, required=False)
+                    if isinstance(mf_, FuncTypes) and any(isinstance(n_, (ast.Yield, ast.YieldFrom)) for n_ in ast.walk(mf_)):
+                        inner = [mf_]
                 if inner:
                     helper_args = [unparse(a) for a in v.args]
                     scope = inner[0]
@@ -609,7 +615,8 @@ def run(chk, repo):
                 gb = docstring_free(scope.body)
                 ys = [n for n in own_nodes(scope) if isinstance(n, (ast.Yield, ast.YieldFrom))]
                 passes_on = False
-                if gb and len(gp) == 1 and helper_args == ["self._data"]:
+                if gb and len(gp) >= 1 and helper_args[:1] == ["self._data"] and helper_args[1:] == gp[1:] \
+                        and len(helper_args) == len(gp):
                     lastst = gb[-1]
                     if isinstance(lastst, ast.For) and not lastst.orelse and isinstance(lastst.target, ast.Name) \
                             and unparse(lastst.iter) == gp[0] and len(lastst.body) == 1 \
